@@ -6,15 +6,74 @@ LEVEL_NOTE = ("theorems are about the Lean model; the model is tied to /repo by 
               "implementation on the same seeded inputs on every check")
 
 
+def _tree_cpu(pid):
+    """user+system seconds used so far by a process and its live descendants (reaped children included)"""
+    tick = os.sysconf("SC_CLK_TCK")
+    procs = {}
+    for d in os.listdir("/proc"):
+        if d.isdigit():
+            try:
+                st = open(f"/proc/{d}/stat").read()
+                f = st[st.rindex(")") + 2:].split()
+                procs[int(d)] = (int(f[1]), sum(int(x) for x in f[11:15]))
+            except (OSError, ValueError, IndexError):
+                pass
+    if pid not in procs:
+        return None
+    total, todo = 0, [pid]
+    while todo:
+        q = todo.pop()
+        total += procs[q][1]
+        todo += [c for c, (pp, _) in procs.items() if pp == q]
+    return total / tick
+
+
+def _wait_not_stuck(p, timeout):
+    """Waits for the harness. A wall-clock limit alone mistakes a busy machine for a hang, so after `timeout`
+    seconds the harness is given up on only if its process tree did nothing for a minute (blocked), or has
+    used 4 x timeout of processor time (spinning), or 6 x timeout has passed. Returns the reason, or None."""
+    import time
+    start = time.time()
+    samples = []
+    while True:
+        try:
+            p.wait(timeout=1.0)
+            return None
+        except subprocess.TimeoutExpired:
+            pass
+        el = time.time() - start
+        if el < timeout:
+            continue
+        cpu = _tree_cpu(p.pid)
+        why = None
+        if cpu is None:
+            why = f"not finished within {timeout} s"
+        else:
+            samples.append((time.time(), cpu))
+            samples = [x for x in samples if x[0] >= time.time() - 90]
+            if cpu >= 4 * timeout:
+                why = f"used {cpu:.0f} s of processor time in {el:.0f} s"
+            elif samples[-1][0] - samples[0][0] >= 60 and samples[-1][1] - samples[0][1] < 1.0:
+                why = f"idle for a minute after {el:.0f} s"
+            elif el >= 6 * timeout:
+                why = f"not finished within {6 * timeout} s"
+        if why:
+            p.kill()
+            p.wait()
+            return why
+
+
 def _run_shard(binp, harness_prop, driver, tier, seed, outdir, run_driver, extra_args, timeout):
     os.makedirs(outdir, exist_ok=True)
     env = dict(os.environ)
-    try:
-        p = subprocess.run([binp, harness_prop, "-tier", tier, "-seed", str(seed), "-out", outdir] + extra_args,
-                           stdout=subprocess.PIPE, stderr=subprocess.STDOUT, text=True, env=env, timeout=timeout)
-    except subprocess.TimeoutExpired as te:
-        out = te.stdout if isinstance(te.stdout, str) else (te.stdout or b"").decode("utf-8", "replace")
-        return {"crash": f"the harness did not finish within {timeout} s (a call into the code under test never returned?)\n" + out[-2000:],
+    logp = os.path.join(outdir, "harness.out")
+    with open(logp, "w") as lf:
+        p = subprocess.Popen([binp, harness_prop, "-tier", tier, "-seed", str(seed), "-out", outdir] + extra_args,
+                             stdout=lf, stderr=subprocess.STDOUT, env=env)
+        why = _wait_not_stuck(p, timeout)
+    p.stdout = open(logp, errors="replace").read()
+    if why:
+        return {"crash": f"the harness did not finish: {why} (a call into the code under test never returned?)\n" + p.stdout[-2000:],
                 "seed": seed}
     if p.returncode != 0:
         return {"crash": p.stdout[-3000:], "seed": seed}
@@ -146,19 +205,25 @@ PROPS = {
     },
     "C19": {
         "harness": "c19", "driver": "c19",
-        "lean_modules": ["BleveModel.Props.C19"],
+        "lean_modules": ["BleveModel.Props.C19", "BleveModel.Props.Highlight"],
         "rule": ("36 fixed strings (scripts, punctuation, HTML, zero-width joiners, NUL, several kinds of invalid UTF-8, very long tokens) "
                  "plus seeded random strings over a mixed valid/invalid alphabet; (1) the letter and whitespace tokenizers compared "
                  "token by token with the Lean character-tokenizer model; (2) every registered tokenizer (offset/position invariants), "
                  "analyzer, token filter (on unicode- and whitespace-tokenised input) and char filter run on every string under "
                  "recover and a 5 s limit; (3) the simple fragmenter with random term locations (inside and outside the text, inside "
-                 "multi-byte runes, start>end) and fragment sizes 0/1/5/200: no panic, fragments inside the text; (4) html and ansi "
+                 "multi-byte runes, start>end) and fragment sizes 0/1/5/200: no panic, fragments inside the text; (3b) the Lean model of "
+                 "the highlighting mechanism (Model/Highlight: utf8.DecodeRune/DecodeLastRune/RuneCount, Fragment, MergeOverlapping, the "
+                 "html/plain/ansi Format) compared output for output with the Go functions on generated values (valid and invalid UTF-8, "
+                 "U+FFFD, HTML specials) and term locations (on and off rune boundaries, nested, overlapping, negative, backwards, beyond "
+                 "the value, unsorted, two array positions, nil entries), fragment sizes -1..200; (4) html and ansi "
                  "highlighting end to end for standard, simple, en, cjk, web, keyword, edge-ngram and length-changing (regexp char "
                  "filter) analyzers: no panic, and for length-preserving analyzers every fragment without markup is a substring of "
                  "the stored value and every marked span occurs in it. non-trivial = non-empty input; distinct by (component, input)"),
         "trusted_base": COMMON_TB + ["third-party analysis libraries (segment, snowball, x/text) are explored, not modelled"],
         "assumptions": [LEVEL_NOTE],
-        "floors": {"ctok/letter": 100, "token_filter/reverse": 100, "fragmenter/locations-outside": 20, "highlight/cjk/html": 5},
+        "floors": {"ctok/letter": 100, "token_filter/reverse": 100, "fragmenter/locations-outside": 20, "highlight/cjk/html": 5,
+                   "highlight-model/utf8": 300, "highlight-model/fragmenter-wellformed": 150, "highlight-model/fragmenter-malformed": 100,
+                   "highlight-model/merge-wellformed": 150, "highlight-model/format-html": 300, "highlight-model/format-html-malformed": 150},
         "thorough_shards": 4,
     },
     "C17": {
